@@ -6,7 +6,22 @@ import (
 )
 
 // DeltaBoundaries are the VLQ boundary values of delta times.
-var DeltaBoundaries = []uint32{0, 1, 127, 128, 16383, 16384, 2097151, 2097152, 0x0FFFFFFF}
+var DeltaBoundaries = []uint32{0, 1, 127, 128, 16383, 16384, 2097151, 2097152, 0x0FFFFFFF,
+	// values whose VLQ encoding ends with the bytes FF 2F (looks like an end-of-track marker when followed by 00)
+	16303, 32687, 2097071}
+
+// Markers are byte sequences that have a structural meaning elsewhere in a file; embedded in
+// payloads they must be treated as plain content.
+var Markers = [][]byte{{0xFF, 0x2F, 0x00}, []byte("MTrk"), []byte("MThd"), {0xF7}, {0xF0, 0x00}, {0xFF, 0x51, 0x03}, {0x00, 0xFF, 0x2F, 0x00}, {0xFF}, {0x00, 0x00, 0xFF, 0x2F, 0x00, 'M', 'T', 'r', 'k'}}
+
+// embedMarker overwrites a random position of p with a structural marker (if it fits).
+func embedMarker(r *mon.Rand, p []byte) {
+	m := Markers[r.Intn(len(Markers))]
+	if len(p) < len(m) {
+		return
+	}
+	copy(p[r.Intn(len(p)-len(m)+1):], m)
+}
 
 // Delta draws a delta time biased to small values and VLQ boundaries (<= 0x0FFFFFFF).
 func Delta(r *mon.Rand) uint32 {
@@ -85,10 +100,18 @@ func MetaEvent(r *mon.Rand, allowBig bool) []byte {
 		return ref.Meta(t, p)
 	case 1, 2: // text-like
 		t := knownMetaText[r.Intn(len(knownMetaText))]
-		return ref.Meta(t, r.Bytes(PayloadLen(r, allowBig)))
+		p := r.Bytes(PayloadLen(r, allowBig))
+		if r.P(1, 6) {
+			embedMarker(r, p)
+		}
+		return ref.Meta(t, p)
 	default:
 		t := UnknownMetaTypes[r.Intn(len(UnknownMetaTypes))]
-		return ref.Meta(t, r.Bytes(PayloadLen(r, allowBig)))
+		p := r.Bytes(PayloadLen(r, allowBig))
+		if r.P(1, 6) {
+			embedMarker(r, p)
+		}
+		return ref.Meta(t, p)
 	}
 }
 
@@ -102,6 +125,9 @@ func SysexEvent(r *mon.Rand, allowBig bool) []byte {
 	case 1: // F7 continuation / escape (arbitrary bytes allowed)
 		if r.Bool() {
 			p = r.Bytes(n)
+		}
+		if r.P(1, 5) {
+			embedMarker(r, p)
 		}
 		return append([]byte{0xF7}, p...)
 	default:
